@@ -5118,6 +5118,11 @@ static void valueFlowInferCondition(TokenList& tokenlist, const Settings& settin
                     }
                 }
             } else if (isIntegralOrPointer(tok->astOperand1()) && isIntegralOrPointer(tok->astOperand2())) {
+                // an unsigned subtraction can wrap around: the bounds of the mathematical difference do not hold for it
+                if (tok->str() == "-" && astIsUnsigned(tok) && !astIsPointer(tok) &&
+                    tok->valueType()->getSizeOf(settings, ValueType::Accuracy::ExactOrZero, ValueType::SizeOf::Pointer) > 0 &&
+                    tok->valueType()->getSizeOf(settings, ValueType::Accuracy::ExactOrZero, ValueType::SizeOf::Pointer) < sizeof(MathLib::bigint))
+                    continue;
                 std::vector<ValueFlow::Value> result =
                     infer(makeIntegralInferModel(), tok->str(), tok->astOperand1()->values(), tok->astOperand2()->values());
                 for (ValueFlow::Value& value : result) {
